@@ -35,8 +35,10 @@ Proof. intros rt E orders dir fuel x. destruct dir; reflexivity. Qed.
 (* ... and such a position is the only place where the no-op routine can occur in a built routine *)
 Theorem C15_noop_only_at_passthrough :
   forall (E : env) (dir : bool) (noop_leaf : nat -> bool) (a : ty),
-    routes' E dir noop_leaf RNoOp a -> exists s, a = TLeaf s /\ noop_leaf s = true.
-Proof. intros E dir noop_leaf a H. inversion H; subst. exists s. split; [reflexivity|assumption]. Qed.
+    routes' E dir noop_leaf RNoOp a ->
+    exists s, aeq E a (TLeaf s) /\ noop_leaf s = true /\ (noalias E -> a = TLeaf s).
+Proof. intros E dir noop_leaf a H. destruct (routes'_noop E dir noop_leaf a H) as [s [Ha Hs]].
+  exists s. split; [exact Ha|]. split; [exact Hs|]. intros Hna. exact (aeq_noalias E _ _ Hna Ha). Qed.
 
 (* construction is repeatable: building is a function of (environment, node orders, direction, annotation);
    nothing else -- no cache state -- enters (the cache side is property C12) *)
